@@ -14,7 +14,10 @@ EXPLANATION = (
     "split on a negative basis index the row arm decodes the index (-idx-1) before using it; R05.4 null discipline - the scaler object is "
     "dereferenced only where a test of the _scaler pointer itself governs the access (`_solver.isScaled()` does not imply a scaler "
     "object: a persistently scaled LP stays scaled after the scaler parameter is switched off); R05.5 sparsity output - where index/count "
-    "outputs are filled, setup() of the solution vector precedes the read of its size and the loop over inds is bounded by *ninds. NOT "
+    "outputs are filled, setup() of the solution vector precedes the read of its size and the loop over inds is bounded by *ninds; R05.6 "
+    "sum semantics - in multBasis / multBasisTranspose (row representation) every contribution of a basis column accumulates or writes a "
+    "position unique to the iteration, and nowhere in the library is a sparse vector filled by bulk appends in a loop and then densified "
+    "by assignment; R05.7 the scaled and unscaled variant of an operation are exclusive alternatives. NOT "
     "decided: that the solves return columns/rows of the inverse, tolerances, the row-representation algebra beyond sign/kind consistency.")
 
 C = M.CLS
@@ -164,6 +167,119 @@ def run(fb, rep, tier):
             nin = [x for x in f.nodes if x.k == 'BinaryOperator' and x.o == '=' and render(x.kids[0]) == '*ninds' and 'size()' in render(x.kids[1]) and (x.l, x.i) < (lp.l, lp.i)]
             su = [x for x in f.nodes if x.k == 'CXXMemberCallExpr' and x.short == 'setup' and nin and (x.l, x.i) < (nin[-1].l, nin[-1].i) and x.l >= nin[-1].l - 3]
             rep.check(bool(nin) and bool(su), 'R05.5', '%s|setup-before-size' % f.short, '%s:%d' % (f.file, lp.l), 'x.setup() immediately before *ninds = x.size()', 'the size of the solution vector is read without a preceding setup()')
+
+    # ------------------------------------------------------------------ R05.6
+    # B*x and x^T*B are sums over basis columns: every contribution inside the loop over basis positions must accumulate
+    # (dense `y[k] += ..`, y.multAdd(a, v)) or write a position that is unique per iteration (y.add(i, dot) with the loop variable);
+    # appending sparse vectors (DSVectorBase::add(SVectorBase) does not merge equal indices) and densifying by assignment
+    # (VectorBase = SVectorBase keeps the last entry per index) does not compute a sum
+    rep.rule('R05.6', 'products with the basis matrix are accumulated, never collected by appending sparse vectors and densifying by assignment', floor=7)
+
+    def bulk_appends(f):
+        out = []
+        for n in f.nodes:
+            if n.k == 'CXXMemberCallExpr' and n.short == 'add' and n.obj() is not None and 'DSVectorBase' in (n.obj().t or '') and len(n.args()) == 1 \
+                    and re.search(r'SVectorBase|DSVector|UnitVector', n.args()[0].t or ''):
+                loops = [a for a in f.ancestors(n) if a.k in ('ForStmt', 'WhileStmt', 'DoStmt')]
+                if loops:
+                    out.append((n, loops[0]))
+        return out
+
+    def densified(f, name):
+        for n in f.nodes:
+            if n.k == 'CXXOperatorCallExpr' and n.o == '=' and len(n.args()) == 2 and render(strip(n.args()[1])) == name and 'VectorBase' in (n.args()[0].t or '') and 'SVectorBase' not in (n.args()[0].t or ''):
+                return n
+            if n.k == 'CXXOperatorCallExpr' and n.o == '[]' and n.args() and render(strip(n.args()[0])) == name:
+                return n
+        return None
+    ctl = 0
+    hits = 0
+    for f in fb.funcs.values():
+        for n, lp in bulk_appends(f):
+            tgt = render(n.obj())
+            d = densified(f, tgt)
+            if f.name.startswith('verif_ctl::'):
+                ctl += 1 if d is not None else 0
+                continue
+            if not f.name.startswith('soplex::') or d is None:
+                continue
+            hits += 1
+            rep.bad('R05.6', '%s|%s' % (f.short, render(n)[:40]), '%s:%d' % (f.file, n.l), '%s appends a sparse vector to %s inside a loop (equal indices are not merged) and %s is then read per index / assigned to a dense vector at line %d (the last entry per index wins): the result is not the sum of the contributions' % (render(n)[:50], tgt, tgt, d.l))
+    if ctl < 1:
+        raise AnalysisBroken('R05.6 positive control (units/controls.cpp sums_columns_by_append) did not fire')
+    rep.ok('R05.6', 'control|sums_columns_by_append', 'units/controls.cpp', 'positive control fires', nontrivial=False)
+    rep.ok('R05.6', 'scan|all-functions', 'src', '%d functions scanned, %d append-then-densify sites' % (len(fb.funcs), hits), nontrivial=False)
+    for f in (fb.one(C + '::multBasis'), fb.one(C + '::multBasisTranspose')):
+        # the ROW-representation loop: the for statement whose body reads bind[i]
+        loops = [n for n in f.nodes if n.k == 'ForStmt' and n.kid('body') is not None and any(render(x).startswith('bind[') for x in n.kid('body').walk() if x.k == 'ArraySubscriptExpr')]
+        if len(loops) != 1:
+            raise AnalysisBroken('%s: the loop over the complementary column basis (bind[i]) was not found' % f.short)
+        lp = loops[0]
+        iv = None
+        for x in (lp.kid('init').walk() if lp.kid('init') is not None else []):
+            if x.k == 'VarDecl':
+                iv = x.n
+        k = 0
+        for n in lp.kid('body').walk():
+            kind = None
+            if n.k == 'CompoundAssignOperator' and n.o == '+=':
+                kind = 'dense +='
+            elif n.k == 'CXXMemberCallExpr' and n.short == 'multAdd':
+                kind = 'multAdd'
+            elif n.k == 'CXXMemberCallExpr' and n.short == 'add' and n.obj() is not None and 'VectorBase' in (n.obj().t or ''):
+                a = n.args()
+                if len(a) == 2 and render(strip(a[0])) == iv:
+                    kind = 'add(%s, value): one entry per basis position' % iv
+                elif len(a) == 2:
+                    kind = None
+                    k += 1
+                    rep.bad('R05.6', '%s|contribution#%d' % (f.short, k), '%s:%d' % (f.file, n.l), '%s writes position %s, which is not the loop variable %s: positions may repeat and entries are not merged' % (render(n)[:50], render(a[0]), iv))
+                    continue
+                else:
+                    k += 1        # bulk append: reported by the scan above
+                    continue
+            elif n.k == 'BinaryOperator' and n.o == '=' and n.kids[0].k in ('ArraySubscriptExpr', 'CXXOperatorCallExpr') and not render(n.kids[0]).startswith(('bind', 'index')) and n.kids[0].t in ('double', 'R'):
+                k += 1
+                rep.bad('R05.6', '%s|contribution#%d' % (f.short, k), '%s:%d' % (f.file, n.l), '%s overwrites an entry of the result inside the loop over basis columns instead of adding to it' % render(n)[:50])
+                continue
+            if kind:
+                k += 1
+                rep.ok('R05.6', '%s|contribution#%d' % (f.short, k), '%s:%d' % (f.file, n.l), '%s (%s)' % (render(n)[:50], kind))
+        if k < 3:
+            raise AnalysisBroken('%s: only %d contributions found in the loop over the complementary column basis' % (f.short, k))
+
+    # ------------------------------------------------------------------ R05.7
+    # the unscaled and the scaled variant of one contribution are alternatives: an `if(unscale && ..)` without else must not be
+    # followed by the same operation on the same target (both would be applied)
+    rep.rule('R05.7', 'scaled and unscaled variants of one operation are exclusive: no if(unscale ..) without else followed by the same call on the same target', floor=10)
+    n_if = 0
+    for f in fs:
+        for n in f.nodes:
+            if n.k != 'IfStmt' or 'unscale' not in render(n.kid('cond')):
+                continue
+            n_if += 1
+            key = '%s|if(%s)@%d' % (f.short, render(n.kid('cond'))[:30], n_if)
+            if n.kid('else') is not None:
+                rep.ok('R05.7', key, '%s:%d' % (f.file, n.l), 'if / else')
+                continue
+            par = n.parent
+            sibs = par.kids if par is not None else []
+            nxt = None
+            for j, x in enumerate(sibs):
+                if x.i == n.i and j + 1 < len(sibs):
+                    nxt = sibs[j + 1]
+            thencalls = set((x.short, render(x.obj())) for x in n.kid('then').walk() if x.k == 'CXXMemberCallExpr' and x.obj() is not None)
+            dup = None
+            if nxt is not None:
+                top = strip(nxt)
+                while top is not None and top.k in ('ExprWithCleanups',) and top.kids:
+                    top = strip(top.kids[0])
+                if top is not None and top.k == 'CXXMemberCallExpr' and top.obj() is not None and (top.short, render(top.obj())) in thencalls and top.short in ('add', 'multAdd'):
+                    dup = top
+            rep.check(dup is None, 'R05.7', key, '%s:%d' % (f.file, n.l), 'no else needed: the following statement does not repeat the operation',
+                      'the branch under (%s) and the unconditional statement after it both apply %s to %s: with unscale the contribution is counted twice' % (render(n.kid('cond'))[:40], dup.short if dup else '', render(dup.obj()) if dup else ''))
+    if n_if < 10:
+        raise AnalysisBroken('only %d if(unscale..) statements found in the basis queries' % n_if)
 
 
 def nearest_def(f, name, at):
